@@ -11,6 +11,12 @@ class Syn:
             self.j = json.load(f)
         self.files = {f["path"]: f for f in self.j["files"]}
         self.bin = synfacts_bin
+        # accumulator loops (`let mut s = String::new(); for .. { s.push_str(..) }`) are read as the equivalent
+        # `map(..).collect()` chain, so that the template rules do not depend on which of the two spellings is used
+        from . import synnorm
+        self.normalised = 0
+        for f in self.j["files"]:
+            self.normalised += synnorm.normalise(f)
 
     def file(self, path):
         return self.files.get(path)
